@@ -10,6 +10,9 @@ from specs import paths as FS
 
 FN = "_griffe.finder:ModuleFinder.find_package"
 
+# these native replays search on their own (guided by the obligation / expected outcome), not from the abstract witness: one run per obligation
+REPLAY_KEYED_BY_EXPECTS = {"replay_file_trees"}
+
 TRUSTED_BASE = [
     "abstract file system: directory listings are consumed through membership only (IN_CONTENTS), existence through EXISTS; a code change that starts to "
     "depend on listing order leaves the abstraction and is reported undecided",
